@@ -96,8 +96,12 @@ def rebalance_seq(c):
     dh = StubDataHandler(rows)
     start = ts(c['start'])
     broker = SimulatedBroker(start, SimulatedExchange(start), dh, initial_funds=c['funds'], fee_model=mk_fee(c['fee']))
+    if c.get('extra_portfolios', 0) >= 2:
+        broker.create_portfolio('a0', 'earlier idle portfolio')
     broker.create_portfolio('p', 'n')
     broker.subscribe_funds_to_portfolio('p', c['funds'])
+    if c.get('extra_portfolios', 0) >= 1:
+        broker.create_portfolio('zz', 'later idle portfolio')
     # seed arbitrary holdings (long, short, assets outside any later universe)
     for a, q in c['seed']:
         broker.submit_order('p', Order(start, a, q))
